@@ -131,6 +131,24 @@ impl std::io::Write for LimitedOutput {
     }
 }
 
+/// Verification hook: the bounded output buffer of `decompress`, driven by the given writes.
+/// Returns the buffer, or the index of the write that was refused.
+#[cfg(oll3_bita_verif)]
+#[doc(hidden)]
+pub fn verif_limited_output(limit: usize, pieces: &[&[u8]]) -> Result<Vec<u8>, usize> {
+    use std::io::Write;
+    let mut output = LimitedOutput {
+        buf: Vec::with_capacity(limit),
+        limit,
+    };
+    for (index, piece) in pieces.iter().enumerate() {
+        if output.write(piece).is_err() {
+            return Err(index);
+        }
+    }
+    Ok(output.buf)
+}
+
 impl fmt::Display for CompressionAlgorithm {
     fn fmt(&self, f: &mut fmt::Formatter<'_>) -> fmt::Result {
         let algorithm_name = match self {
